@@ -702,11 +702,17 @@ func c07eGen(t *rapid.T) c07eCase {
 	nreq := rapid.IntRange(1, 5).Draw(t, "nreq")
 	for i := 0; i < nreq; i++ {
 		rq := c07eReq{
-			Kind:  rapid.SampledFrom([]int{0, 0, 0, 1, 2, 2, 3, 4, 4, 5, 6, 6}).Draw(t, "kind"),
+			Kind:  rapid.SampledFrom([]int{0, 0, 0, 1, 2, 2, 3, 3, 4, 4, 5, 6, 6}).Draw(t, "kind"),
 			Cmd:   rapid.IntRange(0, 2).Draw(t, "cmd"),
 			Var:   rapid.SampledFrom([]int{0, 0, 0, 1, 2, 3, 4}).Draw(t, "var"),
 			WaitS: rapid.SampledFrom([]int{0, 0, 0, 5, 40}).Draw(t, "wait"),
 			HoldS: rapid.SampledFrom([]int{0, 0, 0, 0, 12, 40}).Draw(t, "hold"),
+		}
+		// a third of the requests ask for exactly what one of the stored grants names (so that grants get used up and
+		// later requests meet a session whose grants are partly or wholly spent)
+		if len(c.Grants) > 0 && rapid.IntRange(0, 2).Draw(t, "like-a-grant") == 0 {
+			g := rapid.SampledFrom(c.Grants).Draw(t, "like")
+			rq.Kind, rq.Cmd, rq.Var = []int{1, 0, 2, 4}[g.Type%4], g.Cmd, 0
 		}
 		if rq.Kind == 6 {
 			rq.Dir = rapid.SampledFrom([]int{0, 1, 3, 6, 99, 255, 4, 5}).Draw(t, "dir")
